@@ -7,6 +7,21 @@ CLAIMED = {
  "C01": ("custom SSA path/dominance analysis over all bucket-chain walkers, key callbacks and key-counter stores (go/ssa)",
          "Structural necessary conditions of map semantics, decided for every path of the index code (hence for every key set and hash layout): no chain walk ends early, matches need a full key comparison, the key counter moves exactly with insertions/removals, splits redistribute with updated addressing. Does not decide equality with a reference map.",
          "go/types + go/ssa faithful; anchors typed and named (fail closed); behaviour of a whole history is not decided", "5 C01"),
+ "C04": ("SSA path analysis: every length-changing call on the fs.File embedded in a pogreb.file must be followed by an assignment of file.size on its success paths; interprocedural Close-order analysis for the lock file",
+         "Structural necessary conditions of repeated-crash safety: the in-memory append position can never diverge from the file length (the mechanism that lost acknowledged writes after a torn-tail recovery), and only a completed Close removes the lock file. Does not decide contents along chains of crash images.",
+         "go/ssa faithful; accepted exceptions (in-place bucket rewrite, function-local gob writer) are a reviewed table", "5 C04"),
+ "C06": ("call-string-cloned interprocedural must-pass-through analysis (Sync before success return / before marking a segment full / between record copy and unlink)",
+         "Structural necessary conditions of durability of synced writes under the stated power-loss model, for all paths: Sync reaches fsync of the current segment, a segment is sealed only after a successful Sync of it, compaction syncs the copies before unlinking the source. Does not decide the contents of power-loss images.",
+         "power-loss model as written in the property; fsync honours its contract; go/ssa faithful", "5 C06"),
+ "C09": ("call-string-cloned interprocedural path analysis of DB.Close with access-path receiver identity (Sync-before-Close per file, lock release last)",
+         "Structural necessary conditions of 'Close is a durable checkpoint': on every success path of Close each written file is synced before it is closed, with no write in between, all steps precede the lock release and nothing follows it. Does not decide that every power-loss image reopens to the closed contents.",
+         "power-loss model as written; receiver identity by access path through the call string (no aliasing of file handles in this code base)", "5 C09"),
+ "C15": ("abstract evaluation of file-name expressions through the call string (name families), SSA path analysis of datalog.curSeg uses and of removeSegment/compact ordering",
+         "Structural necessary conditions: everything removed is something created, every per-segment file family is removed with its segment, the current segment is never used for I/O after compaction sealed and removed it, segments are counted as compacted only after removal. Does not decide boundedness of directory size, descriptors or mappings.",
+         "go/ssa faithful; name abstraction covers the constructors used in this package (constants, concatenation, segmentName, segment.name, directory entries)", "5 C15"),
+ "C19": ("forward value-flow (taint) analysis from decoded length fields to allocation sizes with a polarity-checked bound guard",
+         "Decides for every function reachable from recovery/segment iteration that no allocation is sized by a length decoded from file bytes unless control dependent on 'decoded <= bound not derived from file contents'. Does not decide total work/time.",
+         "taint sources: encoding/binary UintN decoders; sinks: make, Buffer.Grow, io.CopyN; go/ssa faithful", "5 C19"),
 }
 
 NOT_APPLICABLE = {}
